@@ -64,9 +64,20 @@ class TlvHead(packet.Packet):
         formats.UInt16PayloadLenField('length', default=None),
     ]
 
+    def extract_padding(self, s):
+        ''' The value is exactly :py:attr:`length` octets,
+        anything after that belongs to the next item of the list.
+        '''
+        return s[:self.length], s[self.length:]
+
     def post_dissection(self, pkt):
         ''' Verify consistency of packet. '''
-        formats.verify_sized_item(self.length, self.payload)
+        value = bytes(self.payload)
+        # octets of any following items are kept as padding
+        pad = self.getlayer(packet.Padding)
+        if pad is not None:
+            value = value[:len(value) - len(pad.load)]
+        formats.verify_sized_item(self.length, value)
         packet.Packet.post_dissection(self, pkt)
 
 
